@@ -257,6 +257,7 @@ func vhShape(n int) *vhLedger {
 			data = []byte{7} // the newest vertex may also carry a payload (mixed data+spice transaction)
 		}
 		v := vhTransfer(i, vhWallet("iss"+verifrt.Itoa(i)), vhWallet("rcv"+verifrt.Itoa(i)), vhAmt("amt"+verifrt.Itoa(i)), data, vhPeerAddr, uint64(50+i))
+		verifrt.Assume(!v.Transaction.IsEmpty()) // admitted vertices never carry an empty transaction (C10)
 		l.add(v, lp, rp)
 	}
 	return l
